@@ -321,6 +321,7 @@ pub fn one_run(ctx: &Ctx, out: &mut Outcome, run_seed: u64) {
         liveness: false,
         flood: false,
         max_len: 60_000,
+        overload: false,
     };
     let mut mons: Vec<Box<dyn Monitor>> = vec![Box::new(ResendOracle::new()), Box::new(CoverageMonitor::new()), Box::new(SizeMonitor { prop: "C13" })];
     let before = (out.get("retransmissions_timed"), out.get("items_acked_effective"));
